@@ -95,6 +95,24 @@ def invertStrainPost (w : V3 R) (V : M3 R) (eng : Bool) : List R :=
   let g := fun x : R => 1 / (1 + x) - 1
   arrayFromEigens ⟨g p.vals.x, g p.vals.y, g p.vals.z⟩ p.d0 p.d1 p.d2 eng
 
+/-- coordinate axis `e_k` and the `k`-th entry of a diagonal -/
+def axis3 (k : Nat) : V3 R := ⟨if k = 0 then 1 else 0, if k = 1 then 1 else 0, if k = 2 then 1 else 0⟩
+def comp3 (a : V3 R) (k : Nat) : R := if k = 0 then a.x else if k = 1 then a.y else a.z
+
+/-- A shortcut for shear-free tensors `diag(a)` that avoids `eigh` (NOT in femio: what a tempting optimisation of
+    `calculate_principal_components` does; modelled to state which frame is right).  `(i, j, k)` is the descending
+    argsort of the diagonal, the values are `a_i, a_j, a_k`, the frame is made of coordinate axes.
+    `byColumns = true`: `np.eye(3)[:, σ]` — principal axis number `m` is COLUMN `m` of the frame, i.e. `e_{σ m}`;
+    `byColumns = false`: `np.eye(3)[σ]` — `e_{σ m}` is ROW `m`, so that column `m` is `e_{σ⁻¹ m}` (the inverse
+    permutation).  The rest is the unchanged tail of the function (third axis := first × second, vectors). -/
+def diagShortcut (byColumns : Bool) (a : V3 R) (i j k : Nat) : Principal R :=
+  let vals : V3 R := ⟨comp3 a i, comp3 a j, comp3 a k⟩
+  let F : M3 R := if byColumns then ofCols (axis3 i) (axis3 j) (axis3 k) else ⟨axis3 i, axis3 j, axis3 k⟩
+  let d0 := col0 F
+  let d1 := col1 F
+  let d2 := cross d0 d1
+  ⟨vals, d0, d1, d2, smul vals.x d0, smul vals.y d1, smul vals.z d2⟩
+
 /-- the matrix `convert_lte_global2local` hands to `eigh` (hard-coded layout, shear halved) -/
 def lteMatrix (f : List R) : M3 R :=
   let g := fun k => f.getD k 0
@@ -170,6 +188,19 @@ def alignNnz (cells : Nat) (ms : List (Sp R)) : List (Sp R) :=
       if v = 0 then none else some v
     let reduced := List.zipWith (fun a d => a - d) added dummy
     pat.zip reduced
+
+/-- row-major flattened position `row · n_col + col` of a cell, in exact arithmetic -/
+def flatKey (cols : Nat) (k : Nat × Nat) : Nat := k.1 * cols + k.2
+
+/-- the same position computed in a signed `bits`-bit integer dtype (two's complement wrap; numpy's int32 index
+    arithmetic for `bits = 32`) -/
+def flatKeyWrap (bits cols : Nat) (k : Nat × Nat) : Int :=
+  let m : Int := ((2 ^ bits : Nat) : Int)
+  let h : Int := ((2 ^ (bits - 1) : Nat) : Int)
+  ((((flatKey cols k : Nat) : Int) + h) % m) - h
+
+/-- the row-major order `insertKey` / `unionKeys` sort by -/
+abbrev keyLt (a b : Nat × Nat) : Prop := a.1 < b.1 ∨ (a.1 = b.1 ∧ a.2 < b.2)
 
 end align
 
